@@ -53,12 +53,15 @@ class ExecutionContext:
             return self.__CreateStructureInstance(varType)
         elif varType.IsArray():
             assert isinstance(varType, LinearIR.ArrayType)
-            result = [
-                self.__CreateInstance(varType.ElementType)
-            ] * varType.Size[0]
-            for dimSize in varType.Size[1:]:
-                result = [result] * dimSize
-            return result
+
+            # Every element gets its own instance, and the first dimension is
+            # the outermost one (int[2][3] is two arrays of three elements)
+            def CreateDimension(sizes):
+                if not sizes:
+                    return self.__CreateInstance(varType.ElementType)
+                return [CreateDimension(sizes[1:]) for _ in range(sizes[0])]
+
+            return CreateDimension(list(varType.Size))
 
     def __CreatePrimitiveInstance(self, primitiveType: LinearIR.Type):
         match primitiveType.Kind:
